@@ -5,11 +5,11 @@
 From Coq Require Import NArith List Bool.
 Import ListNotations.
 From Mds Require Import Gen.ShellTable Shell.ShellModel Shell.ShellSpec Shell.ShellSession Shell.ShellSkel.
-From Mds Require Shell.ShellProofs Shell.ShellProofsPosix Shell.ShellProofs16.
+From Mds Require Shell.ShellProofs Shell.ShellProofsPosix Shell.ShellProofs16 Shell.ShellProofsX Shell.ShellProofsAgree.
 Local Open Scope N_scope.
 
 Ltac to_hand :=
-  repeat first [ rewrite run_ops_hand | rewrite run_sc_hand | rewrite split_from_hand | rewrite split_hand
+  repeat first [ rewrite run_opsx_hand | rewrite run_ops_hand | rewrite run_sc_hand | rewrite split_from_hand | rewrite split_hand
                | rewrite join_hand | rewrite quote_hand | rewrite next_hand | rewrite rest_hand ].
 
 (* ---- C15 ---- *)
@@ -80,3 +80,22 @@ Theorem next_tokens s : exists t, forall n,
 Proof.
   destruct (ShellProofs16.next_tokens s) as [t H]. exists t. intros n. to_hand. apply H.
 Qed.
+
+(* ---- C16: sessions over the whole API (Next, Rest, Err, Reset, Scanner.Split, Each) ---- *)
+Theorem sessionx_ref s ops : session_okx s ops (run_opsx s (new_scanner s) ops) = true.
+Proof. to_hand. apply ShellProofsX.sessionx_ref. Qed.
+
+Theorem sessionx_no_panic s ops : ~ In XRPanic (run_opsx s (new_scanner s) ops).
+Proof. to_hand. apply ShellProofsX.sessionx_no_panic. Qed.
+
+Definition xop := ShellProofsX.xop.
+Definition xout := ShellProofsX.xout.
+
+Theorem run_opsx_basic s0 ops sc : run_opsx s0 sc (map xop ops) = map xout (run_ops sc ops).
+Proof. to_hand. apply ShellProofsX.run_opsx_basic. Qed.
+
+(* ---- C16: agreement with the POSIX reading on inputs free of other metacharacters ---- *)
+Definition no_dollar := ShellProofsAgree.no_dollar.
+
+Theorem split_posix s ws : Forall no_dollar s -> posix_words s = Some ws -> split s = Some (ws, true).
+Proof. intros Hc H. rewrite split_ref, (ShellProofsAgree.posix_agree s ws Hc H). reflexivity. Qed.
